@@ -215,7 +215,8 @@ def values(rng, dtype, n, vclass="small"):
         pool = [0.1, 0.7, 3.3, 0.05, 1.0 / 3.0, 2.5, 1e16, 1.0, 1e-9, 123456.789, -0.3, 0.9, 1e9]
         return np.array([rng.choice(pool) for _ in range(n)], dtype=dt)
     if vclass == "nonfinite":
-        pool = [0.0, -0.0, 1.0, -1.5, 2.25, float("nan"), float("inf"), float("-inf")]
+        # (a NaN with the sign bit set is what inf - inf gives on x86; numpy orders, compares and prints it like any other NaN)
+        pool = [0.0, -0.0, 1.0, -1.5, 2.25, float("nan"), float("inf"), float("-inf"), 1.0, -float("nan")]
         return np.array([rng.choice(pool) for _ in range(n)], dtype=dt)
     if vclass == "extreme":
         pool = [0.0, 1.0, -1.5, 2.25, 1e30, -1e30, 2.0 ** 24 + 2, 3e-5]
